@@ -28,7 +28,11 @@ def ev(e, env):
         raise Unknown("empty")
     k = e.get("k")
     if k == "int":
-        return e["v"]
+        if "v" in e:
+            return e["v"]
+        if "vs" in e:               # constants beyond 2^63 are carried as text (SIZE_MAX)
+            return int(e["vs"])
+        raise Unknown("integer constant without a value")
     if k == "enum":
         return e["v"]
     if k == "sizeof" and e.get("v") is not None:
